@@ -220,6 +220,12 @@ func (m *Mon) updateLedgers(sc *StepCtx) {
 			// the batch is judged against the response threshold in force when it started
 			if rc.ModuleName != "" {
 				m.hit("C12", "threshold-snapshot", "")
+				if t.Module != "" && t.NamedThreshold != 0 && prc.ResponseThreshold != t.NamedThreshold {
+					// the stored threshold is what is being checked: the batch must be judged by the
+					// threshold its module named last (create or accepted update), whatever happened
+					// to the record in between (a zero-height restart, say)
+					m.fail(sc, "C12", "threshold-as-named", "", "context %.16s batch %d starts under response threshold %d, its module named %d", id, rc.BatchCounter, prc.ResponseThreshold, t.NamedThreshold)
+				}
 				if rc.BatchResponseThreshold != prc.ResponseThreshold {
 					m.fail(sc, "C12", "threshold-snapshot", "", "context %.16s batch %d started under response threshold %d but records %d for the batch", id, rc.BatchCounter, prc.ResponseThreshold, rc.BatchResponseThreshold)
 				}
